@@ -40,7 +40,12 @@ Definition strip_first_paged (cs : list ctl) : list ctl :=
 
 (* PagedResults::next: 'ent: loop { match stream.next() ... } ; [fx]: with the repair of F21 the result of the page just read is
    cleared when the follow-up page's stream is spliced in (stream.res = None), without it it stays in place *)
-Fixpoint next (fx : bool) (fuel : nat) (s : stream) : stream * nres :=
+(* which repairs are in: F21 (the result of the page just read is cleared when the follow-up page's stream is spliced in) and its
+   completion F24 (... also when the follow-up search fails to start: the search as a whole has failed, the page's result is not its result) *)
+Record pfix := PF { f21 : bool; f24 : bool }.
+Definition prepaired := PF true true.
+Definition pasfound := PF false false.
+Fixpoint next (fx : pfix) (fuel : nat) (s : stream) : stream * nres :=
   match fuel with O => (s, NErr) | S f =>
   match st s with
   | Active =>
@@ -53,22 +58,22 @@ Fixpoint next (fx : bool) (fuel : nat) (s : stream) : stream * nres :=
       | Some ((_ :: _) as ck) =>
           match server s with
           | p :: rest =>
-              next fx f (mkS Active (Some (p_items p, p_result p)) (if fx then None else Some r) (saved_params s) (saved_ctrls s) (page_size s) rest
+              next fx f (mkS Active (Some (p_items p, p_result p)) (if f21 fx then None else Some r) (saved_params s) (saved_ctrls s) (page_size s) rest
                           (wire s ++ [mkReq (saved_params s) (saved_ctrls s ++ [CPaged (page_size s) ck])]))
-          | [] => (mkS SError None (Some r) (saved_params s) (saved_ctrls s) (page_size s) [] (wire s), NErr) end
+          | [] => (mkS SError None (if f24 fx then None else Some r) (saved_params s) (saved_ctrls s) (page_size s) [] (wire s), NErr) end   (* the follow-up search fails to start *)
       | Some [] => (mkS Done None (Some (mkRes (rc r) (strip_first_paged (ctrls r)))) (saved_params s) (saved_ctrls s) (page_size s) (server s) (wire s), NNone)
       | None => (mkS Done None (Some r) (saved_params s) (saved_ctrls s) (page_size s) (server s) (wire s), NNone)
       end
     end
   | _ => (s, NNone) end end.
 
-Fixpoint drain (fx : bool) (fuel : nat) (s : stream) : list item * stream :=
+Fixpoint drain (fx : pfix) (fuel : nat) (s : stream) : list item * stream :=
   match fuel with O => ([], s) | S f =>
     match next fx (S (length (server s))) s with
     | (s', NSome it) => let (l, s'') := drain fx f s' in (it :: l, s'')
     | (s', _) => ([], s') end end.
 (* the caller reads at most [k] items and stops *)
-Fixpoint take_items (fx : bool) (k : nat) (s : stream) : list item * stream :=
+Fixpoint take_items (fx : pfix) (k : nat) (s : stream) : list item * stream :=
   match k with O => ([], s) | S k' =>
     match next fx (S (length (server s))) s with
     | (s', NSome it) => let (l, s'') := take_items fx k' s' in (it :: l, s'')
@@ -113,7 +118,7 @@ Proof. induction its as [|it its IH]; intros fuel r rs pa uc sz srv w.
 (* crossing a page boundary happens inside one call of next(): the follow-up request goes out and reading continues *)
 Lemma drain_cross fx g r c0 ck p rest rs pa uc sz w : find_paged (ctrls r) = Some (c0 :: ck) ->
   drain fx (S g) (mkS Active (Some ([], r)) rs pa uc sz (p :: rest) w) =
-  drain fx (S g) (mkS Active (Some (p_items p, p_result p)) (if fx then None else Some r) pa uc sz rest (w ++ [mkReq pa (uc ++ [CPaged sz (c0 :: ck)])])).
+  drain fx (S g) (mkS Active (Some (p_items p, p_result p)) (if f21 fx then None else Some r) pa uc sz rest (w ++ [mkReq pa (uc ++ [CPaged sz (c0 :: ck)])])).
 Proof. intros Ef. cbn [drain server length]. cbn [next st chan]. rewrite Ef. reflexivity. Qed.
 
 (* the whole run, from any point inside any page *)
@@ -138,7 +143,7 @@ Proof.
     destruct (fuel - length its)%nat as [|g] eqn:Eg; [lia|].
     unfold cookie_of in Hck. destruct (find_paged (ctrls r)) as [ck|] eqn:Ef; [|congruence]. destruct ck as [|c0 ck]; [congruence|].
     rewrite (drain_cross fx g r c0 ck p rest rs pa uc sz w Ef).
-    destruct (IH (p_items p) (p_result p) (if fx then None else Some r) pa uc sz (w ++ [mkReq pa (uc ++ [CPaged sz (c0 :: ck)])]) (S g) Hwf ltac:(lia)) as (s' & Hd & Hst & Hres & Hw).
+    destruct (IH (p_items p) (p_result p) (if f21 fx then None else Some r) pa uc sz (w ++ [mkReq pa (uc ++ [CPaged sz (c0 :: ck)])]) (S g) Hwf ltac:(lia)) as (s' & Hd & Hst & Hres & Hw).
     rewrite Hd. exists s'. split; [cbn [flat_map]; now rewrite app_assoc|]. repeat split; try assumption.
     rewrite Hw. cbn [followups]. unfold cookie_of. rewrite Ef. now rewrite <- app_assoc.
 Qed.
@@ -180,7 +185,7 @@ Qed.
 
 (* ---- finishing before the end (C10 for the adapted stream, C13 for its ids) ---- *)
 (* with the repair of F21: while the adapted stream is Active it holds no result *)
-Lemma next_active_no_res fuel : forall s s' r, next true fuel s = (s', r) -> (st s = Active -> res s = None) -> st s' = Active -> res s' = None.
+Lemma next_active_no_res fuel : forall s s' r, next prepaired fuel s = (s', r) -> (st s = Active -> res s = None) -> st s' = Active -> res s' = None.
 Proof.
   induction fuel as [|f IH]; intros s s' r H Hinv Ha; cbn [next] in H; [injection H as <- _; auto|].
   destruct (st s) eqn:Es; try (injection H as <- _; congruence).
@@ -191,15 +196,15 @@ Proof.
   - injection H as <- _. cbn. auto.
   - injection H as <- _. cbn in Ha. discriminate.
 Qed.
-Lemma take_items_active_no_res k : forall s l s', take_items true k s = (l, s') -> (st s = Active -> res s = None) -> st s' = Active -> res s' = None.
+Lemma take_items_active_no_res k : forall s l s', take_items prepaired k s = (l, s') -> (st s = Active -> res s = None) -> st s' = Active -> res s' = None.
 Proof.
   induction k as [|k IH]; intros s l s' H Hinv Ha; cbn [take_items] in H; [injection H as _ <-; auto|].
-  destruct (next true (S (length (server s))) s) as [s1 r] eqn:En. pose proof (next_active_no_res _ _ _ _ En Hinv) as H1.
-  destruct r; [destruct (take_items true k s1) as [l' s2] eqn:Et; injection H as _ <-; eapply IH; eauto| |]; injection H as _ <-; auto.
+  destruct (next prepaired (S (length (server s))) s) as [s1 r] eqn:En. pose proof (next_active_no_res _ _ _ _ En Hinv) as H1.
+  destruct r; [destruct (take_items prepaired k s1) as [l' s2] eqn:Et; injection H as _ <-; eapply IH; eauto| |]; injection H as _ <-; auto.
 Qed.
 (* C10 on the adapted stream: however many items the caller has read, on whichever page, a finish() before the end returns the
    synthetic cancellation (88) and scrubs the id of the newest request - never a page's own result *)
-Theorem c10_paged_early_finish params uc size srv s0 k l s' : start params uc size srv = Some s0 -> take_items true k s0 = (l, s') -> st s' = Active ->
+Theorem c10_paged_early_finish params uc size srv s0 k l s' : start params uc size srv = Some s0 -> take_items prepaired k s0 = (l, s') -> st s' = Active ->
   let '(s'', r, scrub) := finish s' in r = cancelled /\ scrub = Some (length (wire s')) /\ st s'' = Closed.
 Proof.
   intros Hs Ht Ha. assert (Hr : res s' = None).
@@ -207,17 +212,49 @@ Proof.
   unfold finish. rewrite Ha, Hr. repeat split. Qed.
 (* the defect on the code as it was: one full page read, the second page begun, finish() returns the first page's result *)
 Lemma c10_refuted_F21 : let pg := mkPage [Entry 1] (mkRes 0 [CPaged 0 [x01]]) in let pg2 := mkPage [Entry 2; Entry 3] (mkRes 0 [CPaged 0 []]) in
-  match start 7 [] 1 [pg; pg2] with Some s0 => let '(_, s') := take_items false 2 s0 in snd (fst (finish s')) = mkRes 0 [CPaged 0 [x01]] | None => False end.
+  match start 7 [] 1 [pg; pg2] with Some s0 => let '(_, s') := take_items pasfound 2 s0 in snd (fst (finish s')) = mkRes 0 [CPaged 0 [x01]] | None => False end.
 Proof. vm_compute. reflexivity. Qed.
 Lemma c10_repaired_F21 : let pg := mkPage [Entry 1] (mkRes 0 [CPaged 0 [x01]]) in let pg2 := mkPage [Entry 2; Entry 3] (mkRes 0 [CPaged 0 []]) in
-  match start 7 [] 1 [pg; pg2] with Some s0 => let '(_, s') := take_items true 2 s0 in snd (fst (finish s')) = cancelled /\ st s' = Active | None => False end.
+  match start 7 [] 1 [pg; pg2] with Some s0 => let '(_, s') := take_items prepaired 2 s0 in snd (fst (finish s')) = cancelled /\ st s' = Active | None => False end.
+Proof. vm_compute. split; reflexivity. Qed.
+
+(* F24: the follow-up search fails to start (the connection was lost between two pages): next() fails, and - with the repair - the
+   result of the page read last does not pass for the result of the search: finish() reports the cancellation *)
+Lemma next_err_no_res fuel : forall s s', next prepaired fuel s = (s', NErr) -> st s = Active -> res s = None -> res s' = None.
+Proof.
+  induction fuel as [|f IH]; intros s s' H Ha Hr; cbn [next] in H; [now injection H as <-|].
+  rewrite Ha in H. destruct (chan s) as [[[|it tl] rr]|] eqn:Ec.
+  - destruct (find_paged (ctrls rr)) as [[|c0 ck]|] eqn:Ef; try discriminate.
+    destruct (server s) as [|p rest]; [now injection H as <-|]. eapply IH; [exact H|reflexivity|reflexivity].
+  - discriminate.
+  - now injection H as <-.
+Qed.
+Theorem c10_paged_failed_followup params uc size srv s0 k l s1 fuel s2 : start params uc size srv = Some s0 -> take_items prepaired k s0 = (l, s1) -> st s1 = Active ->
+  next prepaired fuel s1 = (s2, NErr) -> snd (fst (finish s2)) = cancelled.
+Proof.
+  intros Hs Ht Ha Hn. assert (Hr : res s1 = None).
+  { eapply take_items_active_no_res; [exact Ht| |exact Ha]. unfold start in Hs. destruct (existsb is_paged uc); [discriminate|]. destruct srv; [discriminate|]. injection Hs as <-. reflexivity. }
+  pose proof (next_err_no_res fuel s1 s2 Hn Ha Hr) as R2. unfold finish. destruct (st s2) eqn:E2; cbn [fst snd]; rewrite ?R2; try reflexivity.
+  (* Closed cannot be reached by next *)
+  exfalso. clear - Hn Ha E2. revert s1 Ha Hn. induction fuel as [|f IH]; intros s1 Ha Hn; cbn [next] in Hn; [injection Hn as <-; congruence|].
+  rewrite Ha in Hn. destruct (chan s1) as [[[|it tl] rr]|]; [|discriminate|injection Hn as <-; discriminate].
+  destruct (find_paged (ctrls rr)) as [[|c0 ck]|]; try discriminate. destruct (server s1); [injection Hn as <-; discriminate|]. eapply IH; [|exact Hn]. reflexivity.
+Qed.
+(* with the first repair only: one page read to its end, the server gone - finish() returns that page's own result, paging control and all *)
+Lemma c10_refuted_F24 : let pg := mkPage [Entry 1] (mkRes 0 [CPaged 0 [x01]]) in
+  match start 7 [] 1 [pg] with Some s0 => let '(_, s1) := take_items (PF true false) 1 s0 in let '(s2, r) := next (PF true false) 5 s1 in
+    r = NErr /\ snd (fst (finish s2)) = mkRes 0 [CPaged 0 [x01]] | None => False end.
+Proof. vm_compute. split; reflexivity. Qed.
+Lemma c10_repaired_F24 : let pg := mkPage [Entry 1] (mkRes 0 [CPaged 0 [x01]]) in
+  match start 7 [] 1 [pg] with Some s0 => let '(_, s1) := take_items prepaired 1 s0 in let '(s2, r) := next prepaired 5 s1 in
+    r = NErr /\ snd (fst (finish s2)) = cancelled | None => False end.
 Proof. vm_compute. split; reflexivity. Qed.
 
 (* ---- chained behind EntriesOnly (adapters = [EntriesOnly, PagedResults]) ----
    EntriesOnly::next loops over the next adapter's next(): intermediate messages are dropped, the URIs of reference messages are collected
    (and added to the final result's referral list by EntriesOnly::finish), entries are handed on. Read to the end, the two nested loops -
    the caller's and the adapter's - are one loop over the paged stream: *)
-Fixpoint eo_drain (fx : bool) (fuel : nat) (s : stream) (refs : list nat) : list nat * list nat * stream :=
+Fixpoint eo_drain (fx : pfix) (fuel : nat) (s : stream) (refs : list nat) : list nat * list nat * stream :=
   match fuel with O => ([], refs, s) | S f =>
     match next fx (S (length (server s))) s with
     | (s', NSome (Entry k)) => let '(l, r, s'') := eo_drain fx f s' refs in (k :: l, r, s'')
